@@ -26,16 +26,27 @@ func ruleJSONSliceAppenders(r *Run, p *Prog) {
 		}
 	}
 	for _, f := range p.ModFns {
-		if pkgRel(f) == "internal/json" && f.Parent() == nil && f.Signature.Recv() == nil && isAppenderSig(f.Signature) && len(f.Params) >= 2 {
-			if _, ok := f.Params[1].Type().Underlying().(*typesSlice); ok && !isByteSlice(f.Params[1].Type()) {
+		// unexported slice helpers (functions or methods): []byte result, a non-byte slice parameter
+		if pkgRel(f) != "internal/json" || f.Parent() != nil || f.Object() == nil || f.Object().Exported() {
+			continue
+		}
+		if f.Signature.Results().Len() != 1 || !isByteSlice(f.Signature.Results().At(0).Type()) {
+			continue
+		}
+		for _, par := range f.Params {
+			if _, ok := par.Type().Underlying().(*typesSlice); ok && !isByteSlice(par.Type()) {
 				cands = append(cands, f)
 				helper[f] = true
+				break
 			}
 		}
 	}
 	for _, m := range cands {
 		name := m.Name()
 		n++
+		// thin private helpers ("write the separator and one integer") are part of the appender;
+		// delegated slice appenders and the real element renderers (appendFloat …) stay calls
+		m = p.View(m, "keep-slice-helpers", func(g *ssa.Function) bool { return helper[g] || len(g.Blocks) > 3 })
 		// token sequence along every path: constant bytes and element calls
 		paths, complete := enumPaths(m, 3, 20000)
 		if !complete {
@@ -55,7 +66,18 @@ func ruleJSONSliceAppenders(r *Run, p *Prog) {
 			}
 			elemPrims := map[string]bool{}
 			var toks []string
-			for _, in := range pa.Instrs() {
+			type pin struct {
+				in ssa.Instruction
+				bi int
+			}
+			var seqInstrs []pin
+			for bi, blk := range pa.Blocks {
+				for _, in := range blk.Instrs {
+					seqInstrs = append(seqInstrs, pin{in, bi})
+				}
+			}
+			for _, pi := range seqInstrs {
+				in, bi := pi.in, pi.bi
 				c, ok := in.(*ssa.Call)
 				if !ok {
 					continue
@@ -69,6 +91,8 @@ func ruleJSONSliceAppenders(r *Run, p *Prog) {
 						continue
 					}
 					for _, e := range elems {
+						// a separator kept in a variable ('[' for the first element, ',' afterwards)
+						e = pa.ResolveAt(e, bi)
 						if v, ok := constInt(e); ok {
 							toks = append(toks, string(rune(v)))
 						} else {
